@@ -236,21 +236,42 @@ def run_smib(spec, res):
         pairs = [(o, e2) for o, e1, e2 in zip(orders, errs, errs[1:]) if e2 > 3.2 * floor]
         if not pairs:
             res.count("order_undecided_errors_at_floor")
-        fine = [o for o, _ in pairs[1:]] if method == "trapezoid" else [o for o, _ in pairs[2:]]
-        if method == "trapezoid" and len(pairs) == 1:
-            fine = [pairs[0][0]] if pairs[0][0] > 2.4 else []
-        if fine and not all(lo <= o <= hi for o in fine):
-            res.violate("smib_order", "%s: errors vs the swing-equation reference %s (swing amplitude %.3e) give orders %s; the finer pairs must lie in [%.2f, %.2f]" % (
-                tag, ["%.3e" % e for e in errs], amp, ["%.2f" % o for o in orders], lo, hi), method=method)
-        if pairs and method == "trapezoid" and pairs[0][0] < 0.7:
-            res.violate("smib_order", "%s: no convergence between the two coarsest steps (%s)" % (tag, ["%.3e" % e for e in errs]), method=method)
-        if method == "trapezoid":
-            if errs[-1] > 0.01 * amp + 1e-7:
-                res.violate("smib_accuracy", "%s: finest-step error %.3e exceeds 1%% of the swing amplitude %.3e" % (tag, errs[-1], amp), method=method)
-            if errs[0] > 8 * errs[1] + 1e-7:
-                res.violate("smib_default_step", "%s: default-step error %.3e exceeds 8x the error at h/2 (%.3e)" % (tag, errs[0], errs[1]))
-        elif errs[-1] > errs[0] + floor:
-            res.violate("smib_accuracy", "%s: backward Euler error grows under step refinement %s" % (tag, ["%.3e" % e for e in errs]), method=method)
+        # "converges to the reference as the step size is reduced": every pair above the floor shows convergence, and the
+        # finest such pair has reached the order of the method (coarser pairs of a hard swing - omega_swing * h ~ 0.5, large
+        # excursions - are pre-asymptotic and may be slower or faster)
+        if pairs and min(o for o, _ in pairs) <= 0.0:
+            res.violate("smib_order", "%s: errors vs the swing-equation reference %s do not shrink under step refinement (orders %s)" % (
+                tag, ["%.3e" % e for e in errs], ["%.2f" % o for o in orders]), method=method)
+        elif pairs and len(pairs) >= 2 and not (lo <= pairs[-1][0] <= hi + 0.4):
+            res.violate("smib_order", "%s: errors vs the swing-equation reference %s (swing amplitude %.3e) give orders %s; the finest pair above the "
+                        "floor must lie in [%.2f, %.2f]" % (tag, ["%.3e" % e for e in errs], amp, ["%.2f" % o for o in orders], lo, hi + 0.4), method=method)
+        # "within the discretisation error bound at the default settings": the distance to the reference is explained by the
+        # method's own discretisation estimate (Richardson: e(h) ~ |x_h - x_h/2| * 2^p / (2^p - 1), i.e. 4/3 resp. 2), with
+        # a factor 3 and the event-resolution floor
+        dds = []
+        for k_ in range(len(runs) - 1):
+            dd = 0.0
+            for tp in sorted(set(pts)):
+                ia = np.where(np.abs(runs[k_]["t"] - tp) < 1e-12)[0]
+                ib = np.where(np.abs(runs[k_ + 1]["t"] - tp) < 1e-12)[0]
+                if len(ia) and len(ib):
+                    dd = max(dd, abs(runs[k_]["delta"][ia[-1]] - runs[k_ + 1]["delta"][ib[-1]]))
+            dds.append(dd)
+        pw = 4.0 if method == "trapezoid" else 2.0
+        for k_ in range(len(dds)):
+            # the estimate is only valid where the differences themselves shrink at the method's rate (asymptotic range)
+            j_ = min(k_, len(dds) - 2)
+            ratio = dds[j_] / dds[j_ + 1] if dds[j_ + 1] > 0 else float("inf")
+            if not (pw / 1.5 <= ratio <= pw * 1.5):
+                res.count("discretisation_bound_levels_pre_asymptotic")
+                continue
+            res.count("discretisation_bound_checks")
+            res.maxobs("max_error_over_richardson_estimate", errs[k_] / max(3.0 * dds[k_] + floor, 1e-300))
+            if errs[k_] > 3.0 * dds[k_] + floor:
+                res.violate("smib_accuracy", "%s: at h=%.5f the distance to the reference is %.3e, the method's own discretisation estimate "
+                            "|x_h - x_h/2| is %.3e (bound 3x + floor %.1e): the simulation converges to something else" % (
+                                tag, hs[k_], errs[k_], dds[k_], floor), method=method, level=k_)
+                break
     res.sig = tag
     res.nontrivial = amp > 1e-3
     res.sample = dict(params={k: (round(v, 4) if isinstance(v, float) else v) for k, v in p.items()}, method=method, amplitude=amp, errors=errs, orders=orders)
